@@ -256,8 +256,10 @@ pub fn replay_item(out: &mut Out, bv: &Value, rng: &mut Rng, n: usize) {
                 // powers on a grid: bases below and above 1, whole exponents far from 0 in both directions (the intermediate of a
                 // reciprocal power loses its digits), as function and as operator
                 if func == "Pow" {
-                    let bases = ["0.5", "0.3", "0.1", "0.999", "2", "1.5", "10", "0.25", "3"];
-                    let exps = [-92.0f64, -50.0, -28.0, -10.0, -3.0, -1.0, 0.0, 1.0, 3.0, 10.0, 30.0, 64.0, 92.0, 0.5, -0.5, 2.5, -2.5];
+                    let bases = ["0.5", "0.3", "0.1", "0.999", "2", "1.5", "10", "0.25", "3", "0", "1"];
+                    let exps = [-92.0f64, -50.0, -28.0, -10.0, -3.0, -1.0, 0.0, 1.0, 3.0, 10.0, 30.0, 64.0, 92.0, 0.5, -0.5, 2.5, -2.5,
+                                // the ends of the exponent range of the integer power (u32)
+                                4294967295.0, 4294967296.0, 4294967297.0, 8589934592.0, 2147483648.0];
                     // negative bases: whole exponents of either sign and parity (the sign of the result is the parity's); for eval_complex every exponent
                     for b in ["2", "0.5", "3", "10"] {
                         for x in exps {
